@@ -277,6 +277,14 @@ func frameObligations(p *Program, x *Exec, fi *FuncInfo, fc *FuncContract) {
 			o.Output = "the body (or a callee) may write through the receiver or a pointer/map parameter"
 		}
 	}
+	if fc.Flags["releases"] {
+		o := w.Oblige(x.oblName("typestate:opened-handle-closed-on-every-exit", ""), "frame", True, True)
+		o.Preset, o.Solver, o.Result = true, "typestate-rule", "unsat"
+		if sites := OpenWithoutDeferredClose(fi, "ensureReader", "Close"); len(sites) > 0 {
+			o.Result = "sat"
+			o.Output = "successful ensureReader() not immediately followed by defer Close(): " + strings.Join(sites, ", ")
+		}
+	}
 	if fc.Flags["recvreadonly"] {
 		o := w.Oblige(x.oblName("frame:recvreadonly", ""), "frame", True, True)
 		o.Preset, o.Solver, o.Result = true, "frame-analysis", "unsat"
